@@ -51,3 +51,25 @@ SPECS["C20"] = dict(
         ]),
     ],
 )
+
+# ---------------------------------------------------------------------------
+BUF_ASSUME = ["scripted readers/writers stay within the io.Reader/io.Writer contracts (a writer reports an error whenever it accepts fewer bytes than offered; counts are never negative or larger than offered; a reader may use all of p as scratch space)",
+              "the byte-slice reference model in the harness is correct"]
+
+SPECS["C09"] = dict(
+    level="exploration",
+    technique="stateful property-based testing (rapid state machine) of ring.Buffer against a byte-slice reference model with scripted readers/writers",
+    rule="a case is a generated operation sequence (Write/WriteString/WriteByte/Read/ReadByte/Peek/Discard/Bytes/ReadFrom/WriteTo/Reset with boundary-biased sizes) "
+         "from New(n), n in {0,1,2,3,4,8,16,64,1023,1024,4095,4096,4097,5000}; content, counters and flags are compared with the model after every step; "
+         "non-trivial = the sequence made the buffer wrap (Peek returned a tail), grow, or become exactly full; distinct = distinct operation history",
+    assumptions=BUF_ASSUME,
+    overlay=["verifx/c09", "verifx/vio"],
+    jobs=[
+        dict(name="c09", pkg="./verifx/c09", tests=[
+            dict(id="machine", run="^TestC09Machine$", quick=dict(shards=10, checks=12000, timeout=240, steps=40),
+                 thorough=dict(shards=16, checks=60000, timeout=1500, steps=60, shrinktime=120)),
+            dict(id="small", run="^TestC09Small$", quick=dict(shards=6, checks=15000, timeout=240, steps=40),
+                 thorough=dict(shards=8, checks=60000, timeout=1500, steps=60, shrinktime=120)),
+        ]),
+    ],
+)
